@@ -97,10 +97,12 @@ func c02StripFlags(a string) string {
 }
 
 type c02ModelRes struct {
-	openGN   bool     // a generic record/union occurs with a type variable inside its type arguments
-	sigs     []string // Go signature text per function (fc's spacing) or "ILLTYPED"
-	user     []*c02Sig
-	inDomain bool // false: ill-typed, a type in the body that nothing determines, or a record type determined only through a field name
+	openGN bool // a generic record/union occurs with a type variable inside its type arguments
+	// the modelled fc resolver and the reference unification give different signatures
+	resolverDiffers string
+	sigs            []string // Go signature text per function (fc's spacing) or "ILLTYPED"
+	user            []*c02Sig
+	inDomain        bool // false: ill-typed, a type in the body that nothing determines, or a record type determined only through a field name
 }
 
 // the reference inference on every function of the given variants (requests pipelined per function)
@@ -127,6 +129,13 @@ func c02ModelMany(or *Oracle, p *c02Prog, masks []uint) []c02ModelRes {
 			tab := c02Table(tabs[k])
 			reqs = append(reqs, "(infer "+p.fnSexp(fi, mask, false)+" "+tab+")")
 			reqs = append(reqs, "(infertype "+p.fnSexp(fi, mask, false)+" "+tab+")")
+			// the same constraints solved by the transcription of fc's own resolver (Core/Resolver.v),
+			// dict.Keys order = insertion order for odd masks, reversed for even ones
+			rq := "inferres"
+			if mask%2 == 0 {
+				rq = "inferres-rev"
+			}
+			reqs = append(reqs, "("+rq+" "+p.fnSexp(fi, mask, false)+" "+tab+")")
 			if field {
 				bs := map[string]string{}
 				f.Body.blindSigs(bs)
@@ -139,9 +148,9 @@ func c02ModelMany(or *Oracle, p *c02Prog, masks []uint) []c02ModelRes {
 			owner = append(owner, k)
 		}
 		ans := c02AskMany(or, reqs)
-		per := 2
+		per := 3
 		if field {
-			per = 3
+			per = 4
 		}
 		for n, k := range owner {
 			a := ans[n*per]
@@ -161,7 +170,10 @@ func c02ModelMany(or *Oracle, p *c02Prog, masks []uint) []c02ModelRes {
 			}
 			// the field-blind run must give the same signature and must not leave a type undetermined that
 			// the field name alone would fix (e.g. (fun r -> r.RX) passed for an unused generic argument)
-			if field && (c02StripFlags(ans[n*per+2]) != a || strings.HasPrefix(ans[n*per+2], "AMBIG ") != strings.HasPrefix(ans[n*per], "AMBIG ")) {
+			if ra := ans[n*per+2]; ra != a && a != "ILLTYPED" {
+				res[k].resolverDiffers = fmt.Sprintf("%s: reference `%s`, resolver model `%s`", f.Name, a, ra)
+			}
+			if field && (c02StripFlags(ans[n*per+3]) != a || strings.HasPrefix(ans[n*per+3], "AMBIG ") != strings.HasPrefix(ans[n*per], "AMBIG ")) {
 				res[k].inDomain = false
 			}
 			sg := c02SigOfAnswer(f.Name, ans[n*per+1])
@@ -342,6 +354,12 @@ func c02CheckProgram(c0 *Ctx, p *c02Prog, or *Oracle, srv *FcSrv, hazard bool, q
 		if !models[mask].inDomain || (models[mask].openGN || c02TwoUnionInst(models[mask].user)) && !hazard {
 			c.Count("variant_outside_domain")
 			continue
+		}
+		c.Count("resolver_model_vs_reference_compared")
+		if d := models[mask].resolverDiffers; d != "" && !quiet {
+			// Props/C02.v C02_resolver_agrees_with_unify says this cannot happen on well-typed functions
+			c.Violate("corr-resolver", "the transcription of fc's resolver (Core/Resolver.v) and the reference unification disagree: "+d,
+				c02ReplayOf(p, map[string]any{"broken": "correspondence Core/Resolver.v vs Core/Unify.v (theorem C02_resolver_agrees_with_unify)", "variant_mask": mask}), true)
 		}
 		vmasks = append(vmasks, mask)
 		srcs = append(srcs, p.source(mask))
